@@ -325,16 +325,21 @@ class AsyncTask(futures.FutureBase):
         self.set_error(error)
 
     def traceback(self):
-        try:
-            self_str = self._traceback_line()
-        except Exception:
-            # If _traceback_line failed for whatever reason (e.g. there is no correct frame),
-            # fall back to __str__ so that we can still provide useful information for debugging
-            self_str = core_helpers.safe_str(self)
-        if self.creator is None:
-            return [self_str]
-        result = self.creator.traceback()
-        result.append(self_str)
+        # a loop, not a recursion: the chain of creators can be far longer than the
+        # interpreter (or, compiled, the C stack) can recurse
+        result = []
+        task = self
+        while task is not None:
+            try:
+                task_str = task._traceback_line()
+            except Exception:
+                # If _traceback_line failed for whatever reason (e.g. there is no correct
+                # frame), fall back to __str__ so that we can still provide useful
+                # information for debugging
+                task_str = core_helpers.safe_str(task)
+            result.append(task_str)
+            task = task.creator
+        result.reverse()
         return result
 
     def _traceback_line(self):
